@@ -154,3 +154,284 @@ def run(seed, n_values, n_strings):
         if i != m:
             viol.append(dict(what=f"option string `{unxh(q.split()[1]).decode()}`: implementation `{i}`, grammar `{m}`", input=q))
     return dict(violations=viol, stats=stats, samples=[strs[30:34], ros[:2]])
+
+
+# ---- JSON values and frames (Model/Json.v) -------------------------------------------------------
+import json as _json, os, shutil, tempfile
+
+STR_POOL = ["", "a", "k", "topic", "héllo", "日本", "\U0001F600", "q\"uote", "back\\slash", "sl/ash", "\n\r\t\b\f", "\x00\x01\x1f", "\x7f",
+            "x" * 40, "ID", "meta", "null", "\u2028", "é" * 3]
+INT_POOL = [0, 1, -1, 7, 10, 100, 2 ** 31, 2 ** 32 - 1, 2 ** 53, 2 ** 63 - 1, 2 ** 63, -2 ** 63, 2 ** 64 - 1]
+FLOAT_LEX = ["1.5", "-0.25", "0.5", "3.125", "100.0", "1e21", "2.5e-3", "-0", "18446744073709551616", "-9223372036854775809",
+             "1E2", "1e+2", "0.0"]
+
+
+def gen_value(r, depth=0, floats=True):
+    k = r.random()
+    if depth > 4 or k < 0.45:
+        c = r.random()
+        if c < 0.1:
+            return None
+        if c < 0.2:
+            return r.choice([True, False])
+        if c < 0.5:
+            return r.choice(INT_POOL + [r.randrange(-2 ** 63, 2 ** 64)])
+        if c < 0.6 and floats:
+            return ("float", r.choice(FLOAT_LEX))
+        return r.choice(STR_POOL)
+    if k < 0.7:
+        return [gen_value(r, depth + 1, floats) for _ in range(r.choice([0, 1, 2, 3]))]
+    return ("obj", [(r.choice(STR_POOL[:8] + ["a", "b", "b"]), gen_value(r, depth + 1, floats)) for _ in range(r.choice([0, 1, 2, 3, 4]))])
+
+
+def render_str(r, s, plain=False):
+    out = ['"']
+    for ch in s:
+        o = ord(ch)
+        style = 0 if plain else r.random()
+        if ch == '"':
+            out.append('\\"')
+        elif ch == "\\":
+            out.append("\\\\")
+        elif o < 0x20:
+            out.append({8: "\\b", 12: "\\f", 10: "\\n", 13: "\\r", 9: "\\t"}.get(o, "\\u%04x" % o) if style < 0.7 else "\\u%04X" % o)
+        elif ch == "/" and style > 0.5:
+            out.append("\\/")
+        elif style > 0.9 and o < 0x10000 and not (0xD800 <= o <= 0xDFFF):
+            out.append("\\u%04x" % o)
+        elif style > 0.9 and o >= 0x10000:
+            v = o - 0x10000
+            out.append("\\u%04x\\u%04x" % (0xD800 + (v >> 10), 0xDC00 + (v & 0x3FF)))
+        else:
+            out.append(ch)
+    out.append('"')
+    return "".join(out)
+
+
+def render(r, v, ws=True):
+    sp = (lambda: r.choice(["", "", "", " ", "\n", "\t ", "\r\n"])) if ws else (lambda: "")
+    if v is None:
+        return "null"
+    if v is True:
+        return "true"
+    if v is False:
+        return "false"
+    if isinstance(v, int):
+        return str(v)
+    if isinstance(v, str):
+        return render_str(r, v, plain=not ws)
+    if isinstance(v, tuple) and v[0] == "float":
+        return v[1]
+    if isinstance(v, tuple) and v[0] == "raw":
+        return v[1]
+    if isinstance(v, list):
+        return "[" + sp() + ",".join(sp() + render(r, x, ws) + sp() for x in v) + "]"
+    return "{" + sp() + ",".join(sp() + render_str(r, k, plain=not ws) + sp() + ":" + sp() + render(r, x, ws) + sp() for k, x in v[1]) + "}"
+
+
+def mutate(r, t):
+    if not t:
+        return t
+    k = r.random()
+    i = r.randrange(len(t))
+    if k < 0.3:
+        return t[:i] + t[i + 1:]
+    if k < 0.6:
+        return t[:i] + r.choice(',]}[{":0-+.eE \\u\x01\x1f\'tnf') + t[i:]
+    if k < 0.7:
+        return t + r.choice([",", " x", "]", "}", " ", "\n", "1"])
+    if k < 0.8:
+        return t.replace("[", "[,", 1) if "[" in t else t + ","
+    if k < 0.9:
+        return t.replace("1", "01", 1)
+    return t.replace('"', '"\\ud800', 1)
+
+
+def _num_hook(s):
+    i = int(s)
+    return i if (-2 ** 63 <= i <= 2 ** 64 - 1 and s != "-0") else float(s)
+
+
+def canon_json_text(b):
+    """parsed form for comparing two printers modulo the f64 oracle (a float lexeme vs ryu's spelling)"""
+    return _json.loads(b.decode(), parse_int=_num_hook)
+
+
+import re as _re
+_NUM = _re.compile(r"-?\d+(?:\.\d+)?(?:[eE][+-]?\d+)?")
+
+
+def outside_f64_oracle(t):
+    """a number lexeme whose f64 value overflows (serde_json: 'number out of range'), or an integer too long for the
+    decimal model (> 38 digits): the model keeps float lexemes as they are, f64 arithmetic is an oracle"""
+    for m in _NUM.finditer(t):
+        lx = m.group(0)
+        try:
+            f = float(lx)
+        except Exception:
+            return True
+        if f in (float("inf"), float("-inf")) or len(lx) > 38:
+            return True
+    return False
+
+
+def same_output(a, b):
+    if a == b:
+        return True
+    if a.startswith("OK ") and b.startswith("OK "):
+        try:
+            return canon_json_text(unxh(a[3:])) == canon_json_text(unxh(b[3:]))
+        except Exception:
+            return False
+    return False
+
+
+def nest_of(spec_text):
+    d = m = 0
+    ins = False
+    esc = False
+    for ch in spec_text:
+        if ins:
+            if esc:
+                esc = False
+            elif ch == "\\":
+                esc = True
+            elif ch == '"':
+                ins = False
+        elif ch == '"':
+            ins = True
+        elif ch in "[{":
+            d += 1; m = max(m, d)
+        elif ch in "]}":
+            d -= 1
+    return m
+
+
+def gen_frame_text(r, metas, ttl_strs):
+    """a frame object (or array) as text, mostly valid; -> text"""
+    idp = lambda: r.choice([H.id_to_s(r.choice([0, 1, 2 ** 127, 2 ** 128 - 1, r.randrange(2 ** 128)]))] * 6 +
+                           [H.id_to_s(r.randrange(2 ** 128)).upper(), "0" * 24, "0" * 26, "z" * 25, "f5lxx1zz5pnorynqglhzmsp34", "", "ID:00"])
+    fields = [("topic", ("raw", render_str(r, r.choice(STR_POOL + ["a.b", "xs.context"])))),
+              ("context_id", ("raw", _json.dumps(idp()))),
+              ("id", ("raw", _json.dumps(idp()))),
+              ("hash", ("raw", r.choice(["null", "null", '"sha256-47DEQpj8HBSa+/TImW+5JCeuQeRkm5NMpJWZG3hSuFU="',
+                                        '"sha512-z4PhNX7vuL3xVChQ1m2AB9Yg5AULVxXcg/SpIdNs6c5H0NE8XYXysP+DGNKHfuwvY7kxvUdBeoGlODJ6+SfaPg=="']))),
+              ("meta", ("raw", r.choice(metas))),
+              ("ttl", ("raw", r.choice(["null", "null"] + [_json.dumps(t) for t in ttl_strs])))]
+    k = r.random()
+    if k < 0.08:
+        return "[" + ",".join(v[1] for _, v in fields[: r.choice([6, 6, 6, 5, 7]) if r.random() < 0.5 else 6]) + "]"
+    if k < 0.5:
+        r.shuffle(fields)
+    if r.random() < 0.15:
+        fields.pop(r.randrange(len(fields)))
+    if r.random() < 0.1:
+        fields.insert(r.randrange(len(fields) + 1), r.choice(fields))
+    if r.random() < 0.15:
+        fields.insert(r.randrange(len(fields) + 1), (r.choice(["extra", "Topic", "ttl2"]), ("raw", r.choice(['1', '"x"', '[1,{"a":null}]', 'null']))))
+    if r.random() < 0.08:
+        j = r.randrange(len(fields))
+        fields[j] = (fields[j][0], ("raw", r.choice(["1", "null", "[]", "{}", "true", '""'])))
+    return render(r, ("obj", fields))
+
+
+def run_json(seed, n_values, n_frames, fixed=True):
+    """-> dict(violations, stats)"""
+    r = random.Random(seed)
+    viol = []
+    stats = dict(json_texts=0, json_accepted=0, json_rejected=0, frame_texts=0, frames_accepted=0, frames_rejected=0,
+                 deep_values=0, store_probes=0, store_accepted=0, store_rejected=0, float_texts=0)
+    # ---- JSON texts
+    texts = []
+    for _ in range(n_values):
+        v = gen_value(r)
+        t = render(r, v)
+        texts.append(t)
+        if r.random() < 0.5:
+            texts.append(mutate(r, t))
+    for d in (1, 2, 100, 125, 126, 127, 128, 129, 130, 200, 600):
+        for kind in ("a", "o", "mix"):
+            spec = {"a": "a" * d, "o": "o" * d}.get(kind) or "".join(r.choice("ao") for _ in range(d))
+            t = "".join("[" if c == "a" else '{"k":' for c in spec) + r.choice(["null", "1", '"x"']) + "".join("]" if c == "a" else "}" for c in reversed(spec))
+            texts.append(t); stats["deep_values"] += 1
+    lines = ["J " + xh(t) for t in texts]
+    impl, rc, err = _run(build.XSV, "codec", lines)
+    model, rc2, err2 = _run(build.XSMODEL, "json", lines)
+    if len(impl) != len(lines) or len(model) != len(lines):
+        return dict(violations=[dict(what=f"json harness failed rc={rc}/{rc2} {err} {err2}", no_input=True)], stats=stats)
+    for t, i, m in zip(texts, impl, model):
+        if outside_f64_oracle(t):
+            stats["outside_f64_oracle"] = stats.get("outside_f64_oracle", 0) + 1
+            continue
+        stats["json_texts"] += 1
+        stats["json_accepted" if i.startswith("OK") else "json_rejected"] += 1
+        if not same_output(i, m):
+            viol.append(dict(what=f"JSON text {t[:120]!r} (nesting {nest_of(t)}): serde_json {'-> ' + unxh(i[3:]).decode()[:120] if i.startswith('OK') else 'rejects'}, "
+                                  f"the model {'-> ' + unxh(m[3:]).decode()[:120] if m.startswith('OK') else 'rejects'}", input=t))
+        elif i.startswith("OK"):
+            # whatever serde_json printed parses back to the same value (round trip of the implementation itself)
+            pass
+    # ---- frame texts
+    metas = ["null", "null", '{"a":1}', '{}', '"s"', '7', '[1,2]'] + [render(r, gen_value(r, floats=False), ws=False) for _ in range(40)]
+    for d in (125, 126, 127, 128):
+        metas.append("[" * d + "]" * d)
+    ttl_strs = ["forever", "ephemeral", "time:0", "time:1500", "head:1", "head:4294967295", "head:0", "head:4294967296", "time:-1", "Time:5", "time:18446744073709551616", ""]
+    ftexts = [gen_frame_text(r, metas, ttl_strs) for _ in range(n_frames)]
+    ftexts += [mutate(r, t) for t in ftexts[: n_frames // 5]]
+    lines = ["F " + xh(t) for t in ftexts]
+    impl, rc, err = _run(build.XSV, "codec", lines)
+    model, rc2, err2 = _run(build.XSMODEL, "json", lines)
+    if len(impl) != len(lines) or len(model) != len(lines):
+        return dict(violations=[dict(what=f"frame harness failed rc={rc}/{rc2} {err} {err2}", no_input=True)], stats=stats)
+    reenc = []
+    for t, i, m in zip(ftexts, impl, model):
+        if outside_f64_oracle(t):
+            stats["outside_f64_oracle"] = stats.get("outside_f64_oracle", 0) + 1
+            if i.startswith("OK"):
+                reenc.append(i[3:])
+            continue
+        stats["frame_texts"] += 1
+        stats["frames_accepted" if i.startswith("OK") else "frames_rejected"] += 1
+        if not same_output(i, m):
+            viol.append(dict(what=f"frame text {t[:200]!r}: Frame deserializer {'-> ' + unxh(i[3:]).decode()[:160] if i.startswith('OK') else 'rejects'}, "
+                                  f"the model {'-> ' + unxh(m[3:]).decode()[:160] if m.startswith('OK') else 'rejects'}", input=t))
+        if i.startswith("OK"):
+            reenc.append(i[3:])
+    # what the implementation wrote must be read back by it, to the same bytes (nothing accepted fails later)
+    again, _, _ = _run(build.XSV, "codec", ["F " + x for x in reenc])
+    for x, a in zip(reenc, again):
+        if a != "OK " + x:
+            viol.append(dict(what=f"a frame the deserializer produced does not survive its own round trip: {unxh(x).decode()[:200]!r} -> {a[:80]}",
+                             input=unxh(x).decode()))
+    # ---- the store: a frame whose meta is built in memory (as nu's value_to_json does) - accepted iff readable
+    # (a meta of Some(Null) is indistinguishable from no meta in every encoding and reads back as None: outside wf_frame)
+    specs = ["a", "o", "ao"] + ["".join(r.choice("ao") for _ in range(d)) for d in (5, 60, 120, 124, 125, 126, 126, 127, 127, 128, 129, 130, 200, 500)]
+    d = tempfile.mkdtemp(prefix="c12", dir=os.path.join(build.BUILD, "work")) if os.path.isdir(os.path.join(build.BUILD, "work")) else tempfile.mkdtemp(prefix="c12", dir=build.BUILD)
+    try:
+        p = subprocess.run([build.XSV, "codec", d], input=("\n".join("P " + (s_ or "-") for s_ in specs) + "\n").encode(),
+                           stdout=subprocess.PIPE, stderr=subprocess.PIPE, timeout=300)
+        impl = p.stdout.decode().splitlines()
+    finally:
+        shutil.rmtree(d, ignore_errors=True)
+    if len(impl) != len(specs):
+        return dict(violations=viol + [dict(what=f"store probe harness failed: {p.stderr.decode()[-300:]}", no_input=True)], stats=stats)
+    enc = [l.split(" ")[-1] for l in impl]
+    model, _, _ = _run(build.XSMODEL, "json", ["F " + x for x in enc])
+    for s_, i, m in zip(specs, impl, model):
+        stats["store_probes"] += 1
+        verdict = " ".join(i.split(" ")[:-1])
+        stats["store_accepted" if verdict.startswith("accepted") else "store_rejected"] += 1
+        readable = m.startswith("OK")
+        if verdict == "accepted POISON":
+            viol.append(dict(what=f"Store::append accepted a frame whose meta nests {len(s_)} levels (spec {s_[:12]}..): reading it back panics "
+                                  f"(deserialize_frame) - one stored frame makes later reads fail; the model says the encoding "
+                                  f"{'decodes' if readable else 'does not decode (recursion limit 128)'}", input="P " + s_, poison=True))
+        elif verdict == "accepted DIFFERENT":
+            viol.append(dict(what=f"Store::append then get returned a different frame for meta nesting {len(s_)}", input="P " + s_))
+        elif verdict == "accepted readable" and not readable:
+            viol.append(dict(what=f"meta nesting {len(s_)}: the store reads the frame back, the model says its encoding does not decode", input="P " + s_))
+        elif verdict == "rejected" and readable:
+            viol.append(dict(what=f"meta nesting {len(s_)}: the store refuses a frame whose encoding decodes (model)", input="P " + s_))
+        elif verdict not in ("accepted readable", "rejected"):
+            viol.append(dict(what=f"store probe {s_[:20]}: {i[:100]}", input="P " + s_))
+    return dict(violations=viol, stats=stats)
